@@ -110,7 +110,7 @@ class Quantity {
  public:
     using Rep = RepT;
     using Unit = UnitT;
-    static constexpr auto unit = Unit{};
+    static constexpr Unit unit{};
 
     static_assert(IsValidRep<Rep>::value, "Rep must meet our requirements for a rep");
 
@@ -429,6 +429,10 @@ class Quantity {
     Rep value_{};
 };
 
+// Provide out-of-line definition for static member, for C++14 compatibility.
+template <typename UnitT, typename RepT>
+constexpr UnitT Quantity<UnitT, RepT>::unit;
+
 // Give more readable error messages when passing `Quantity` to a unit slot.
 template <typename U, typename R>
 struct AssociatedUnit<Quantity<U, R>> {
@@ -570,7 +574,7 @@ constexpr auto rep_cast(Zero z) {
 template <typename UnitT>
 struct QuantityMaker {
     using Unit = UnitT;
-    static constexpr auto unit = Unit{};
+    static constexpr Unit unit{};
 
     template <typename T>
     constexpr Quantity<Unit, T> operator()(T value) const {
@@ -619,6 +623,10 @@ struct QuantityMaker {
         return QuantityMaker<UnitQuotientT<Unit, OtherUnit>>{};
     }
 };
+
+// Provide out-of-line definition for static member, for C++14 compatibility.
+template <typename UnitT>
+constexpr UnitT QuantityMaker<UnitT>::unit;
 
 template <typename U>
 struct AssociatedUnit<QuantityMaker<U>> : stdx::type_identity<U> {};
